@@ -258,3 +258,34 @@ func FindIn(list []map[string]any, like map[string]any) map[string]any {
 func (e *Env) syncOf(parent map[string]any) *SyncTrace {
 	return e.run(func() error { return e.Ctl.Sync(e.Ctl.KeyFor(parent)) })
 }
+
+// DesiredFromTrace returns the children (attachments) of the last sync/finalize
+// hook answer of the trace, normalised the way metacontroller documents
+// (namespace defaulting, controller-uid label, decorator marker).
+func (e *Env) DesiredFromTrace(t *SyncTrace) ([]map[string]any, bool) {
+	var last *HookExchange
+	for _, h := range t.Hooks {
+		if h.URL != CustomizeURL && h.Response.Code == 200 {
+			last = h
+		}
+	}
+	if last == nil {
+		return nil, false
+	}
+	resp, err := vs.DecodeJSON(last.Response.Body)
+	if err != nil {
+		return nil, false
+	}
+	key := "children"
+	if e.Scn.Cfg.Kind == "decorator" {
+		key = "attachments"
+	}
+	kids, _ := resp[key].([]any)
+	var out []map[string]any
+	for _, k := range kids {
+		if km, ok := k.(map[string]any); ok {
+			out = append(out, e.NormalizeDesired(km))
+		}
+	}
+	return out, true
+}
